@@ -57,7 +57,7 @@ THEOREMS = ["BinaryBrier.binaryLL_eq_def", "BinaryBrier.binaryLL_eq_binaryDef", 
             "BinaryBrier.public_activity_only", "BinaryBrier.public_spatial_activity_only",
             "BinaryBrier.duplicate_event_invisible", "BinaryBrier.public_entries_eq_def", "BinaryBrier.public_rejects_iff",
             "BinaryBrier.pipeline_entry_count", "BinaryBrier.publicN_reads_first_rows", "BinaryBrier.publicN_too_few_rows",
-            "BinaryBrier.region_binding"]
+            "BinaryBrier.region_binding", "BinaryBrier.magnitude_less_region_is_replaced"]
 TRUSTED = ["Lean 4.33 kernel", "axioms: propext, Classical.choice, Quot.sound at most",
            "Real.log / Real.exp stand for numpy.log / numpy.exp; scipy.stats.poisson.cdf(0, r) = exp(-r); rounding not "
            "modelled, Float instance compared numerically on every run",
@@ -98,7 +98,12 @@ RULE = ("array level: 1-D (1..200 bins) and 2-D ((1..40)x(1..8)) rate arrays, ra
         "tests are long verbose runs (100-130 simulations, progress branch); 400 (quick) / 6000 (thorough) random masked arrays "
         "through each numpy.ma primitive; 35% of the float64 public-test forecasts carry a scale factor of any kind scale() "
         "documents (scalars, 0-d, (1,1), (n,1), (m,), (1,m), (n,m) arrays, scale_to_test_date; 0-2 earlier factors first), "
-        "rates under test = stored x last factor computed by the harness.")
+        "rates under test = stored x last factor computed by the harness. Round 5 (owners): magnitude grids with starts and steps "
+        "of every decimal length (0.125, 0.05, 0.025, 2^-k, 1/3, negative starts; forecast.magnitudes / region.magnitudes must equal "
+        "the supplied edges bit for bit); observed catalogs in every region state: none, the forecast's object, an equal copy, "
+        "magnitude-less with the same cells, with the cells in another order, with more cells than the forecast, a space-magnitude "
+        "region with other magnitude edges - the forecast's region decides; after a CL / Brier test the bound region must BIN like "
+        "the forecast's (same cells, order, edges); calls on which unchanged pyCSEP itself departs are named in AWAITING_DECISION.")
 
 # the exact-rational (Soft64) sampling weights of the pipeline model cost ~0.15 ms per bin: arrays beyond this size are
 # scored through the Float ops (c16_bll / c16_brier / c16_mode) with the simulated catalogs placed by the harness
@@ -125,7 +130,13 @@ COUNT_DTYPES = ["i8", "f8", "?", "u1", "i4", "f4", "u8", "u2", "i8be", "i4be"]
 #                            unsigned integers: `-forecast.spatial_counts() * scale` wraps around, every cell is nan.
 #                            Only the per-cell map comparison is skipped for these forecasts; the joint log-likelihood,
 #                            the Brier score and the three public tests are checked on them like on any other.
-AWAITING_DECISION = ["map-unsigned-int-rates"]
+#   s-test-on-catalog-own-spatial-region       : binary_spatial_test grids the catalog on the catalog's OWN region without checking
+#                            that it is the forecast's (other cell order: silently permuted occupancy; other cell set: IndexError).
+#                            The class is generated; only the S-test BEFORE a CL / Brier test bound the forecast's region is skipped.
+#   catalog-own-space-magnitude-region-differs : binary CL / Brier tests trust a space-magnitude region the catalog already carries
+#                            even if its magnitude edges are not the forecast's. Only those two calls are skipped.
+AWAITING_DECISION = ["map-unsigned-int-rates", "s-test-on-catalog-own-spatial-region",
+                     "catalog-own-space-magnitude-region-differs"]
 _EXTRA_DTYPES = {"rates-unsigned-int": ["u1", "u4", "u8"], "rates-narrow-float": ["i1", "f2", "i2"],
                  "rates-float32-tiny": ["f4tiny"]}
 _NP = {"f8": numpy.float64, "i8": numpy.int64, "i4": numpy.int32, "f4": numpy.float32, "f4tiny": numpy.float32,
@@ -560,6 +571,13 @@ def _gen_rates_dtype(rng, g, shape, rdt):
 
 
 # ----------------------------------------------------------------------------- public tests
+def _MAGS():
+    """magnitude grids of every decimal length (shared with C05): starts and steps with one, two, three decimals, dyadic and
+    1/3-style steps, negative starts - the edges the USER supplies are the edges a space-magnitude region must bin on"""
+    from . import c05 as _c05
+    return _c05.MAG_STARTS, _c05.MAG_STEPS
+
+
 def _gen_test_spec(rng, tier):
     ns = rng.choice([1, 2, 3, 5, 8, 13, 20, 40, rng.randint(1, 40)])
     nm = rng.choice([1, 1, 2, 3, 8, rng.randint(1, 8)])
@@ -595,13 +613,17 @@ def _gen_test_spec(rng, tier):
         events.append([i, j, rng.uniform(0.2, 0.8).hex(), rng.uniform(0.2, 0.8).hex(), rng.uniform(0.2, 0.8).hex()])
     spec = dict(ns=ns, nm=nm, cls=cls, data=[[float(x).hex() for x in row] for row in data], events=events,
                 nx=rng.randint(1, ns), dh=rng.choice([0.1, 0.5, 1.0]), x0=float(rng.randint(-20, 20)),
-                y0=float(rng.randint(-20, 20)), m0=rng.choice([2.5, 4.0, 4.95]), dm=rng.choice([0.1, 0.5, 1.0]),
+                y0=float(rng.randint(-20, 20)), m0=rng.choice(_MAGS()[0]), dm=rng.choice(_MAGS()[1]),
                 nsim=rng.choice([1, 2, 3]) if tier == "quick" else rng.choice([1, 2, 3, 5]),
                 rn_seed=rng.randrange(2 ** 32), same_region=rng.random() < 0.5,
                 fscale=rng.choice([None, None, None, 2.0, 0.5, 10.0, 3.0, 0.1]), open_mag=rng.random() < 0.15)
     r = rng.random()
     if r < 0.2:
         spec["cat_region"] = "none" if r < 0.1 else "nomag"
+    elif r < 0.34:
+        # round 5 (owners): a magnitude-less region with the forecast's cells in ANOTHER order, with MORE cells than the forecast
+        # has, or a space-magnitude region of the catalog's own with other magnitude edges; the forecast's region decides
+        spec["cat_region"] = "nomag-perm" if r < 0.27 else ("nomag-superset" if r < 0.31 else "sm-othermags")
     if rep:
         spec.update(rdtype=rdt, rlayout=rl)
         if rdt != "f8":
@@ -618,14 +640,16 @@ def _gen_test_spec(rng, tier):
 
 
 def _bound_to(cat, fore):
-    """the catalog is bound to the forecast's space-magnitude region: the same object or an equal one (which, is incidental)"""
+    """the catalog is bound to a region that BINS like the forecast's space-magnitude region: the same object, or one with the same
+    cells in the same order, the same cell size and the same magnitude edges (the identity of the object is incidental)"""
     reg = getattr(cat, "region", None)
     if reg is fore.region:
         return True
     try:
         return reg is not None and getattr(reg, "magnitudes", None) is not None and \
             numpy.array_equal(numpy.asarray(reg.magnitudes, dtype=float), numpy.asarray(fore.magnitudes, dtype=float)) and \
-            reg.num_nodes == fore.region.num_nodes
+            numpy.array_equal(numpy.asarray(reg.origins(), dtype=float), numpy.asarray(fore.region.origins(), dtype=float)) and \
+            float(reg.dh) == float(fore.region.dh)
     except Exception:
         return False
 
@@ -686,8 +710,17 @@ def _build(spec):
     # how the observed catalog comes: bound to the forecast's region object, to an equal region of its own, to NO region,
     # or to a purely spatial region (magnitudes None) - the CL and Brier tests then grid it on the forecast's region (D40)
     cr = spec.get("cat_region") or ("same" if spec["same_region"] else "equal")
-    cat_region = dict(same=fore.region, equal=CartesianGrid2D.from_origins(origins, dh=dh, magnitudes=mags), none=None,
-                      nomag=CartesianGrid2D.from_origins(origins, dh=dh))[cr]
+    if cr == "nomag-perm":
+        perm = numpy.arange(ns)[::-1] if spec["rn_seed"] % 2 else numpy.random.default_rng(spec["rn_seed"]).permutation(ns)
+        cat_region = CartesianGrid2D.from_origins(origins[perm].copy(), dh=dh)
+    elif cr == "nomag-superset":
+        extra = numpy.array([[spec["x0"] + dh * k, spec["y0"] - dh] for k in range(nx)])
+        cat_region = CartesianGrid2D.from_origins(numpy.vstack([extra, origins]), dh=dh)
+    elif cr == "sm-othermags":
+        cat_region = CartesianGrid2D.from_origins(origins, dh=dh, magnitudes=[spec["m0"] + spec["dm"] * (k - 0.5) for k in range(nm + 1)])
+    else:
+        cat_region = dict(same=fore.region, equal=CartesianGrid2D.from_origins(origins, dh=dh, magnitudes=mags), none=None,
+                          nomag=CartesianGrid2D.from_origins(origins, dh=dh))[cr]
     cat = CSEPCatalog(data=ev, region=cat_region, name="catalog")
     return fore, cat, data, cnt
 
@@ -833,10 +866,28 @@ def _test_case(run, drv, pending, spec, tag="test"):
     if nev <= 2000:
         evs = [(e[0], e[1]) for e in spec["events"]] + [(i, j) for i, j, c in spec.get("events_bulk", []) for _ in range(c)]
         evtxt = ",".join(f"{i}:{j}" for i, j in evs) if evs else "-"
-    if cr == "none":
+    if cr in ("none", "nomag-perm", "nomag-superset"):
         # a catalog without region cannot be gridded by the S-test; the CL / Brier test binds the forecast's region to it
-        # (documented fallback), after which the S-test works on the same object: history CL/B first, then S
+        # (documented fallback), after which the S-test works on the same object: history CL/B first, then S.  The same order
+        # for a catalog whose magnitude-less region has other cells / another cell order than the forecast's: the CL / Brier
+        # test grids it on the FORECAST's region; the S-test BEFORE that is a genuine-defect candidate (AWAITING_DECISION)
         modes = [modes[1], modes[2], modes[0]] if spec["rn_seed"] % 2 else [modes[2], modes[0], modes[1]]
+        if cr != "none":
+            run.count("awaiting-decision-skipped:s-test-on-catalog-own-spatial-region")
+    elif cr == "sm-othermags":
+        # the catalog carries a space-magnitude region with other magnitude edges: the S-test (same cells) is well defined;
+        # CL / Brier on it are a genuine-defect candidate (AWAITING_DECISION)
+        modes = [modes[0]]
+        run.count("awaiting-decision-skipped:catalog-own-space-magnitude-region-differs")
+    # the magnitude edges of the forecast and of its space-magnitude region are the ones the user supplied, bit for bit
+    want_m = [spec["m0"] + spec["dm"] * k for k in range(nm)]
+    for what, got in (("forecast.magnitudes", getattr(fore, "magnitudes", None)),
+                      ("forecast.region.magnitudes", getattr(fore.region, "magnitudes", None))):
+        got = None if got is None else [float(x) for x in numpy.ravel(got)]
+        if got is None or len(got) != nm or any(_bits(a) != _bits(b) for a, b in zip(got, want_m)):
+            run.oracle_failure(case, f"{what} = {None if got is None else got[:5]} is not the list of magnitude edges the forecast "
+                                     f"was built with {want_m[:5]}")
+            return
     for mode, fn in modes:
         obs1d = cnt.sum(axis=1) if mode == "S" else cnt.ravel()
         n_active = int((obs1d > 0).sum())
@@ -875,16 +926,13 @@ def _test_case(run, drv, pending, spec, tag="test"):
         if spec["rn_seed"] % 8 == 0:
             _wrong_width(run, drv, pending, case, mode, fn, (fore, cat), n_active, nsim, g,
                          rex if mode == "S" else data.ravel(), [int(c) for c in obs1d], [ns, nm] if mode == "B" else None)
-    if cr in ("none", "nomag"):
-        # the forecast's space-magnitude region, the same object or an equal one (which of the two is incidental)
-        reg = getattr(cat, "region", None)
-        ok = reg is fore.region or (reg is not None and getattr(reg, "magnitudes", None) is not None and
-                                    numpy.array_equal(numpy.asarray(reg.magnitudes, dtype=float),
-                                                      numpy.asarray(fore.magnitudes, dtype=float)) and
-                                    getattr(reg, "num_nodes", None) == fore.region.num_nodes)
-        if not ok:
+    if cr in ("none", "nomag", "nomag-perm", "nomag-superset"):
+        # afterwards the catalog bins like the forecast: the forecast's region object, or a region with the SAME cells in the
+        # SAME order and the same magnitude edges (which object it is, is incidental; how it bins is not)
+        if not _bound_to(cat, fore):
             run.oracle_failure(case, f"a catalog that came without a space-magnitude region ({cr}) is bound to "
-                                     f"{reg!r} after the CL / Brier test, not to the forecast's region")
+                                     f"{getattr(cat, 'region', None)!r} after the CL / Brier test: not a region that bins like the "
+                                     f"forecast's (same cells, same order, same magnitude edges)")
     _cells_check(run, drv, pending, case, fore, cat, data, cnt, rdt)
 
 
@@ -1037,7 +1085,7 @@ def _gen_default_spec(rng, tier):
         events.append([i, j, rng.uniform(0.2, 0.8).hex(), rng.uniform(0.2, 0.8).hex(), rng.uniform(0.2, 0.8).hex()])
     test = dict(ns=ns, nm=nm, cls="two-decades", data=[[x.hex() for x in row] for row in data], events=events,
                 nx=rng.randint(1, ns), dh=rng.choice([0.1, 0.5, 1.0]), x0=float(rng.randint(-20, 20)),
-                y0=float(rng.randint(-20, 20)), m0=rng.choice([2.5, 4.0, 4.95]), dm=rng.choice([0.1, 0.5, 1.0]), nsim=1,
+                y0=float(rng.randint(-20, 20)), m0=rng.choice(_MAGS()[0]), dm=rng.choice(_MAGS()[1]), nsim=1,
                 rn_seed=0, same_region=rng.random() < 0.5, fscale=None, open_mag=False)
     return dict(test=test, nsim=rng.choice([2, 2, 3, 4, 6]), seed=rng.choice([0, 1, 7, 123456789, rng.randrange(2 ** 32)]),
                 seeding=rng.choice(["arg", "ambient"]), level=rng.choice(["array", "public"]), verbose=rng.random() < 0.2)
